@@ -16,12 +16,14 @@
 extern unsigned long w_pm;
 #define W_CALL(F, ...) (w_pm ? (F)(__VA_ARGS__) : F(__VA_ARGS__))
 #define W_CALLV(F, ...) do { if (w_pm) (F)(__VA_ARGS__); else F(__VA_ARGS__); } while (0)
-#define W_P(x) (void*)((uint8_t*)(x) - ((x) ? 16 : 0)) + ((x) ? 16 : 0)
+/* two unparenthesised spellings of the same address: a typed pointer plus one element (trips a macro that casts to a byte
+ * pointer) and, with w_pm == 2, an untyped pointer plus 16 bytes (trips a macro that casts to a structure pointer) */
+#define W_PT(T, x) w_pm == 2 ? (void*)((uint8_t*)(x) - ((x) ? 16 : 0)) + ((x) ? 16 : 0) : (T*)((uint8_t*)(x) - ((x) ? sizeof(T) : 0)) + ((x) ? 1 : 0)
 
 /* ---------------- ACF-CAN ---------------- */
 void w_can_create(uint8_t* pdu, uint64_t id, uint8_t* payload, uint64_t len, uint64_t variant)
 {
-    W_CALLV(Avtp_Can_CreateAcfMessage, W_P(pdu), (uint32_t)id, payload, (uint16_t)len, (Avtp_CanVariant_t)variant);
+    W_CALLV(Avtp_Can_CreateAcfMessage, W_PT(Avtp_Can_t, pdu), (uint32_t)id, payload, (uint16_t)len, (Avtp_CanVariant_t)variant);
 }
 
 /* the separate steps a talker may use instead of the one-shot builder */
@@ -46,12 +48,12 @@ void w_can_steps_inplace(uint8_t* pdu, uint64_t id, uint8_t* payload, uint64_t l
     W_CALLV(Avtp_Can_Finalize, p, (uint16_t)len);
 }
 
-uint64_t w_can_paylen(uint8_t* pdu) { return W_CALL(Avtp_Can_GetCanPayloadLength, W_P(pdu)); }
-uint64_t w_can_payoff(uint8_t* pdu) { return (uint64_t)(W_CALL(Avtp_Can_GetPayload, W_P(pdu)) - pdu); }
+uint64_t w_can_paylen(uint8_t* pdu) { return W_CALL(Avtp_Can_GetCanPayloadLength, W_PT(Avtp_Can_t, pdu)); }
+uint64_t w_can_payoff(uint8_t* pdu) { return (uint64_t)(W_CALL(Avtp_Can_GetPayload, W_PT(Avtp_Can_t, pdu)) - pdu); }
 
 uint64_t w_canbrief_create(uint8_t* pdu, uint64_t id, uint8_t* payload, uint64_t len, uint64_t variant)
 {
-    return (uint64_t)(int64_t)W_CALL(Avtp_CanBrief_SetPayload, W_P(pdu), (uint32_t)id, payload, (uint16_t)len, (Avtp_CanVariant_t)variant);
+    return (uint64_t)(int64_t)W_CALL(Avtp_CanBrief_SetPayload, W_PT(Avtp_CanBrief_t, pdu), (uint32_t)id, payload, (uint16_t)len, (Avtp_CanVariant_t)variant);
 }
 
 uint64_t w_canbrief_steps(uint8_t* pdu, uint64_t id, uint8_t* payload, uint64_t len, uint64_t variant)
@@ -65,7 +67,7 @@ uint64_t w_canbrief_steps(uint8_t* pdu, uint64_t id, uint8_t* payload, uint64_t 
 }
 
 /* ---------------- VSS ---------------- */
-void w_vss_pad(uint8_t* pdu, uint64_t len) { W_CALLV(Avtp_Vss_Pad, W_P(pdu), (uint16_t)len); }
+void w_vss_pad(uint8_t* pdu, uint64_t len) { W_CALLV(Avtp_Vss_Pad, W_PT(Avtp_Vss_t, pdu), (uint16_t)len); }
 /* read length and pad through the dedicated getters, finalise, read them again - all inside one function, as an
  * application does; out: length before, pad before, length after, pad after (16 bits each, big-endian) */
 void w_vss_pad_getters(uint8_t* pdu, uint64_t len, uint8_t* out)
@@ -77,7 +79,7 @@ void w_vss_pad_getters(uint8_t* pdu, uint64_t len, uint8_t* out)
     out[0] = (uint8_t)(l0 >> 8); out[1] = (uint8_t)l0; out[2] = (uint8_t)(p0 >> 8); out[3] = (uint8_t)p0;
     out[4] = (uint8_t)(l1 >> 8); out[5] = (uint8_t)l1; out[6] = (uint8_t)(p1 >> 8); out[7] = (uint8_t)p1;
 }
-uint64_t w_vss_pathlen(uint8_t* pdu) { return W_CALL(Avtp_Vss_CalcVssPathLength, W_P(pdu)); }
+uint64_t w_vss_pathlen(uint8_t* pdu) { return W_CALL(Avtp_Vss_CalcVssPathLength, W_PT(Avtp_Vss_t, pdu)); }
 
 /* kind 0: caller's VssPath_t holds an interop path (length + pointer); kind 1: a static id */
 void w_vss_set_path(uint8_t* pdu, uint64_t kind, uint64_t static_id, uint8_t* path, uint64_t pathlen)
@@ -86,7 +88,7 @@ void w_vss_set_path(uint8_t* pdu, uint64_t kind, uint64_t static_id, uint8_t* pa
     memset(&vp, 0, sizeof vp);
     if (kind == 1) vp.vss_static_id_path = (uint32_t)static_id;
     else { vp.vss_interop_path.path_length = (uint16_t)pathlen; vp.vss_interop_path.path = (char*)path; }
-    W_CALLV(Avtp_Vss_SetVssPath, W_P(pdu), &vp);
+    W_CALLV(Avtp_Vss_SetVssPath, W_PT(Avtp_Vss_t, pdu), &vp);
 }
 
 /* out[0..1] path_length BE (or 0xA5A5 when untouched), out[2] = 1 when the path pointer was changed,
@@ -100,7 +102,7 @@ void w_vss_get_path2(uint8_t* pdu, uint64_t kind, uint8_t* dest, uint8_t* out, u
     memset(&s, 0xA5, sizeof s);
     memset(&s.vp, (int)prefill, sizeof s.vp);
     if (kind == 0) s.vp.vss_interop_path.path = (char*)dest;
-    W_CALLV(Avtp_Vss_GetVssPath, W_P(pdu), &s.vp);
+    W_CALLV(Avtp_Vss_GetVssPath, W_PT(Avtp_Vss_t, pdu), &s.vp);
     memset(out, 0, 8);
     if (kind == 0) {
         out[0] = (uint8_t)(s.vp.vss_interop_path.path_length >> 8);
@@ -196,7 +198,7 @@ void w_vss_set_data(uint8_t* pdu, uint64_t shape, uint8_t* canon, uint64_t nbyte
         arr.data = (uint64_t*)(void*)typed;       /* NULL is passed through for empty values: a caller without data */
         val.data_uint64_array = &arr;
     }
-    W_CALLV(Avtp_Vss_SetVssData, W_P(pdu), &val);
+    W_CALLV(Avtp_Vss_SetVssData, W_PT(Avtp_Vss_t, pdu), &val);
 }
 
 /* decode. shape as above. dest: destination for variable-length values (NULL = length query), naturally
@@ -212,7 +214,7 @@ void w_vss_get_data2(uint8_t* pdu, uint64_t shape, uint8_t* dest, uint8_t* out_c
     memset(&s, 0xA5, sizeof s);
     memset(meta, 0, 4);
     if (shape <= 10) {
-        W_CALLV(Avtp_Vss_GetVssData, W_P(pdu), &s.val);
+        W_CALLV(Avtp_Vss_GetVssData, W_PT(Avtp_Vss_t, pdu), &s.val);
         uint64_t v = 0;
         switch (shape) {
         case 0: v = s.val.data_uint8; break;
@@ -235,7 +237,7 @@ void w_vss_get_data2(uint8_t* pdu, uint64_t shape, uint8_t* dest, uint8_t* out_c
         s.arr.data = (uint64_t*)(void*)dest;
         s.arr.data_length = (uint16_t)prefill;
         s.val.data_uint64_array = &s.arr;
-        W_CALLV(Avtp_Vss_GetVssData, W_P(pdu), &s.val);
+        W_CALLV(Avtp_Vss_GetVssData, W_PT(Avtp_Vss_t, pdu), &s.val);
         meta[0] = (uint8_t)(s.arr.data_length >> 8);
         meta[1] = (uint8_t)s.arr.data_length;
         meta[2] = (s.arr.data != (uint64_t*)(void*)dest) | (s.val.data_uint64_array != &s.arr);
